@@ -291,7 +291,11 @@ def check_roundtrip(case):
     types = [f.get("type", "string") for f in fields]
     with _Tmp() as d:
         path = os.path.join(d, "t.scsv")
+        import copy
+
+        schema_before = copy.deepcopy(schema)
         sut(_io.save_scsv, path, schema, data)
+        require(schema == schema_before or str(schema) == str(schema_before), "save_scsv modified the schema dictionary it was given")
         out = sut(_io.read_scsv, path)
         raw = _raw_cells(path, case["delimiter"])
     names = [f["name"] for f in fields]
